@@ -3,6 +3,8 @@ package simrt
 import (
 	"math"
 
+	sebufhttp "github.com/SebastienMelki/sebuf/http"
+
 	"google.golang.org/protobuf/proto"
 	"google.golang.org/protobuf/reflect/protoreflect"
 	"pgregory.net/rapid"
@@ -183,6 +185,19 @@ func genField(rt *rapid.T, m protoreflect.Message, fd protoreflect.FieldDescript
 			tm := v.Message()
 			secs := rapid.Int64Range(-62135596800, 253402300799).Draw(rt, l+"#secs")
 			nanos := rapid.SampledFrom([]int32{0, 0, 1, 1000, 1000000, 123456789, 999999999}).Draw(rt, l+"#nanos")
+			// documented lossy formats: stay inside the domain the format can carry
+			switch timestampFormatOf(fd) {
+			case sebufhttp.TimestampFormat_TIMESTAMP_FORMAT_UNIX_SECONDS:
+				nanos = 0
+			case sebufhttp.TimestampFormat_TIMESTAMP_FORMAT_UNIX_MILLIS:
+				nanos = nanos / 1000000 * 1000000
+			case sebufhttp.TimestampFormat_TIMESTAMP_FORMAT_DATE:
+				nanos = 0
+				secs = secs / 86400 * 86400
+				if secs < -62135596800 {
+					secs = -62135596800
+				}
+			}
 			tm.Set(tm.Descriptor().Fields().ByName("seconds"), protoreflect.ValueOfInt64(secs))
 			tm.Set(tm.Descriptor().Fields().ByName("nanos"), protoreflect.ValueOfInt32(nanos))
 			m.Set(fd, v)
@@ -190,6 +205,10 @@ func genField(rt *rapid.T, m protoreflect.Message, fd protoreflect.FieldDescript
 		}
 		v := m.NewField(fd)
 		GenMessage(rt, v.Message(), l, depth+1, opt)
+		if eb := emptyBehaviorOf(fd); (eb == sebufhttp.EmptyBehavior_EMPTY_BEHAVIOR_NULL || eb == sebufhttp.EmptyBehavior_EMPTY_BEHAVIOR_OMIT || isFlatten(fd)) && proto.Size(v.Message().Interface()) == 0 {
+			// documented loss: presence of an empty message is not carried under NULL / OMIT
+			return
+		}
 		m.Set(fd, v)
 	default:
 		m.Set(fd, genScalar(rt, fd, l))
@@ -394,4 +413,33 @@ func sortMapKeys(ks []protoreflect.MapKey) {
 			ks[j], ks[j-1] = ks[j-1], ks[j]
 		}
 	}
+}
+
+func timestampFormatOf(fd protoreflect.FieldDescriptor) sebufhttp.TimestampFormat {
+	opts := fd.Options()
+	if opts == nil || !proto.HasExtension(opts, sebufhttp.E_TimestampFormat) {
+		return sebufhttp.TimestampFormat_TIMESTAMP_FORMAT_UNSPECIFIED
+	}
+	v, _ := proto.GetExtension(opts, sebufhttp.E_TimestampFormat).(sebufhttp.TimestampFormat)
+	return v
+}
+
+func emptyBehaviorOf(fd protoreflect.FieldDescriptor) sebufhttp.EmptyBehavior {
+	opts := fd.Options()
+	if opts == nil || !proto.HasExtension(opts, sebufhttp.E_EmptyBehavior) {
+		return sebufhttp.EmptyBehavior_EMPTY_BEHAVIOR_UNSPECIFIED
+	}
+	v, _ := proto.GetExtension(opts, sebufhttp.E_EmptyBehavior).(sebufhttp.EmptyBehavior)
+	return v
+}
+
+// isFlatten: a flattened child contributes only its fields, so the presence of an
+// EMPTY child cannot be carried (same kind of loss as empty_behavior OMIT).
+func isFlatten(fd protoreflect.FieldDescriptor) bool {
+	opts := fd.Options()
+	if opts == nil || !proto.HasExtension(opts, sebufhttp.E_Flatten) {
+		return false
+	}
+	v, _ := proto.GetExtension(opts, sebufhttp.E_Flatten).(bool)
+	return v
 }
